@@ -59,13 +59,42 @@ class OneFile:
         return StatResult(MODES[self.kind], self.dev, self.ino, self.st_size, self.mtime)
 
 
+class _PathProxy:
+    """os.path over the one-file world: exists() & co are a stat() that maps every
+    OSError to False, exactly like the real ones"""
+
+    def __init__(self, osp):
+        self._osp = osp
+        for n in ('join', 'dirname', 'basename', 'relpath', 'normpath', 'splitext', 'sep'):
+            setattr(self, n, getattr(_real_os.path, n))
+
+    def _st(self, path):
+        try:
+            return self._osp.stat(path)
+        except OSError:
+            return None
+
+    def exists(self, path):
+        return self._st(path) is not None
+
+    lexists = exists
+
+    def isfile(self, path):
+        st = self._st(path)
+        return st is not None and _stat.S_ISREG(st.st_mode)
+
+    def isdir(self, path):
+        st = self._st(path)
+        return st is not None and _stat.S_ISDIR(st.st_mode)
+
+
 class _OsProxy:
     O_RDONLY = _real_os.O_RDONLY
     O_NONBLOCK = _real_os.O_NONBLOCK
-    path = _real_os.path
 
     def __init__(self, f: OneFile):
         self._f = f
+        self.path = _PathProxy(self)
 
     def open(self, path, flags):
         f = self._f
